@@ -537,6 +537,22 @@ def r3_record_layout(ctx, rule, scope='all'):
     ctx.floor(rule, 'Rules/<name>', n, {'all': 10, 'omen': 6, 'pcfg': 3}[scope], 'record writer/reader sites')
 
 
+def _universal_newlines(fn):
+    """every file the function opens is a builtin text-mode open() without a newline= argument (CR LF arrives as LF)"""
+    opens = [c for c in calls_in(fn) if call_name(c) in ('open', 'codecs.open', 'io.open')]
+    if not opens:
+        return False
+    for c in opens:
+        if call_name(c) == 'codecs.open':
+            return False
+        if any(k.arg == 'newline' for k in c.keywords) or len(c.args) >= 6:
+            return False
+        mode = const(c.args[1]) if len(c.args) > 1 else next((const(k.value) for k in c.keywords if k.arg == 'mode'), 'r')
+        if not isinstance(mode, str) or 'b' in mode:
+            return False
+    return True
+
+
 def r5_strip_discipline(ctx, rule, only=None, floor=8):
     """Readers may only remove line terminators where the value is the last field; never strip the value field."""
     n = 0
@@ -562,6 +578,10 @@ def r5_strip_discipline(ctx, rule, only=None, floor=8):
                         ctx.bad(rule, q, U(c)[:60], 'the value (n-gram / character) is the last field of the line: a '
                                 'whitespace rstrip() removes trailing spaces that are part of it; only \\r\\n may be removed',
                                 None, c)
+                    elif m == 'rstrip' and where == 'last' and only_eol and set(arg) != set('\r\n') and not _universal_newlines(fn):
+                        ctx.bad(rule, q, U(c)[:60], 'the value is the last field of the line and the stream does not translate line '
+                                'endings (codecs.open, or open(..., newline=...)): with only %r removed, a ruleset whose files end their '
+                                'lines with CR LF keeps the CR as the last character of every value' % arg, None, c)
                     else:
                         ctx.ok(rule, q, '%s: only %s' % (U(c)[:40], 'line terminators removed' if only_eol else
                                                           'trailing whitespace after the last (numeric) field removed'))
